@@ -347,7 +347,8 @@ def gen_battery_raw(rng):
 
 
 def x86_block(rng, i):
-    b = [["proc", str(i)], ["other", "vendor_id", False, "GenuineIntel"], ["other", "model name", False, "Some CPU @ 2.40GHz"],
+    b = [["proc", str(i)], ["other", "vendor_id", False, "GenuineIntel"], ["other", "cpu family", False, "6"],
+         ["other", "model name", False, "Some CPU @ 2.40GHz"],
          ["mhz", rng.choice(["800", "2400", "2893", "3600", "0", "1"]), rng.choice(["000", "202", "001", "999", "500"])],
          ["other", "cache size", False, "8192 KB"], ["pid", str(rng.choice([0, 0, 1, i // 2]))],
          ["other", "siblings", False, "8"], ["cid", str(i)], ["cores", str(rng.choice([1, 2, 4, 8]))],
@@ -360,6 +361,11 @@ def x86_block(rng, i):
         b = [l for l in b if l[0] != "cores"]
     elif r < 0.25:
         b.append(["cores", "3"])
+    if rng.random() < 0.2:
+        # keys that share a prefix with the scanned ones (MIPS "cpu model", x86 "cpuid level", "physical" ...)
+        b.insert(rng.randrange(len(b)), rng.choice([["other", "cpu model", True, "MIPS 24Kc V5.5"], ["other", "cpuid level", False, "22"],
+                                                    ["other", "cpu MH", False, "7"], ["other", "physical", False, "1"],
+                                                    ["other", "processo", False, "9"]]))
     return b
 
 
